@@ -28,4 +28,26 @@ PROPS = {
         trusted_base=["Go map lookup, strings.SplitN, strings.HasPrefix, sort.Strings as documented (modelled)"],
         assumptions=COMMON_ASSUME + ["method names are non-empty (an empty method is not a request: C02)"],
     ),
+    "C11": dict(
+        lean_modules=["Jrpc.Props.C11", "Jrpc.Tie.C11"],
+        namespaces=["Jrpc.Props.C11", "Jrpc.Tie.C11"],
+        harness_test="TestC11",
+        min_theorems=15,
+        level_text="Machine-checked Lean theorems: Split/Line and StrictHeader/Header/LSP round trips for EVERY record list (any bytes, any lengths incl. 0, growing and shrinking: split_roundtrip, hdr_roundtrip via atoi(itoa n)=n and a line-by-line analysis of the header loop), Send refusing the split byte, fragment-independence of the Split accumulation loop, Direct as a FIFO; RawJSON round trip is proved for the empty record and validated by correspondence for containers/strings (raw_roundtrip is partial). Literals / buffer policy are re-derived from /repo (Tie.C11); the model is compared with the real channels under scripted fragmentation (1-byte reads, data+EOF, all cut sets of small streams in thorough).",
+        level_note="Trusted: Lean kernel, go2lean, harness; bufio.Reader (ReadSlice/ReadString), io.ReadFull, io.CopyN, json.Decoder deliver by delimiter/count/value regardless of fragmentation (contract, exercised by the chunk-controlled reader). RawJSON container round trip is established by correspondence only.",
+        trusted_base=["bufio.Reader / io.ReadFull / io.CopyN / json.Decoder fragmentation-independence contracts"],
+        assumptions=COMMON_ASSUME + ["mime types are non-empty, free of newlines and of leading/trailing blanks (GoodMime) or empty", "aliasing of the reused receive buffer is documented behaviour; results are copied immediately"],
+        timeout={"quick": 900, "thorough": 3000},
+    ),
+    "C12": dict(
+        lean_modules=["Jrpc.Props.C12", "Jrpc.Tie.C11"],
+        namespaces=["Jrpc.Props.C12", "Jrpc.Tie.C11"],
+        harness_test="TestC12",
+        min_theorems=14,
+        level_text="Recv of every framing is a total Lean function of the remaining stream (reference decoder written from the package documentation); theorems: Split soundness (a record is exactly the bytes up to the next delimiter; an unterminated tail is returned whole WITH an error), exhausted streams keep failing for every framing, Content-Length accepted only as in-range decimal (length_in_range, length_decimal), bad/missing length never reaches the body read, up-front allocation bounded by 2 MiB for any declared length, body read exact, Content-Type policy. The decoder is compared with the real channels on adversarial streams (absurd lengths in a memory-limited worker process).",
+        level_note="Trusted: Lean kernel, go2lean, harness; memory growth inside bytes.Buffer / json.Decoder is proportional to input by their contracts; strings.TrimSpace / ToLower are modelled on ASCII (no non-ASCII rune lowers into the two field names; Unicode blanks are outside the explored alphabet).",
+        trusted_base=["strconv.Atoi, strings.TrimSpace/TrimRight/SplitN/ToLower on ASCII as documented (modelled)"],
+        assumptions=COMMON_ASSUME,
+        timeout={"quick": 900, "thorough": 3000},
+    ),
 }
